@@ -776,3 +776,94 @@ func VerifC16ArrayReverse(n int) {
 	zv.Assert(verifArrInv(b), "invariant broken by Reverse")
 	zv.Reach("reverse")
 }
+
+// VerifC16ArrayGrown: two-step histories from the constructors: an array grown from
+// NewEmptyBitArray by appends (style 0: single bits, 1: 8-bit chunks, 2: AppendBitArray of a
+// NewBitArray-built array) holds whatever spare capacity the growth policy leaves; every query and
+// Reverse / Xor / SetRange / Clear must still agree with the model afterwards.
+func VerifC16ArrayGrown(n, style int) {
+	b := NewEmptyBitArray()
+	m := zv.Bools(n)
+	switch style {
+	case 0:
+		for _, v := range m {
+			b.AppendBit(v)
+		}
+	case 1:
+		i := 0
+		for ; i+8 <= n; i += 8 {
+			v := 0
+			for j := 0; j < 8; j++ {
+				if m[i+j] {
+					v |= 1 << uint(7-j)
+				}
+			}
+			b.AppendBits(v, 8)
+		}
+		for ; i < n; i++ {
+			b.AppendBit(m[i])
+		}
+	default:
+		o := NewBitArray(n)
+		for i, v := range m {
+			if v {
+				o.Set(i)
+			}
+		}
+		b.AppendBitArray(o)
+	}
+	zv.Assert(verifArrSame(b, m), "grown array differs from the bits appended")
+	zv.Assert(verifArrInv(b), "invariant after growth")
+	// queries
+	ns, nu := n, n
+	for from := n + 1; from >= 0; from-- {
+		if from < n {
+			if m[from] {
+				ns = from
+			} else {
+				nu = from
+			}
+		}
+		zv.Assert(b.GetNextSet(from) == ns, "GetNextSet on a grown array")
+		zv.Assert(b.GetNextUnset(from) == nu, "GetNextUnset on a grown array")
+	}
+	if n >= 8 {
+		out := make([]byte, n/8)
+		b.ToBytes(0, out, 0, n/8)
+		ok := true
+		for i := range out {
+			var want byte
+			for j := 0; j < 8; j++ {
+				if m[i*8+j] {
+					want |= 1 << uint(7-j)
+				}
+			}
+			ok = zv.And(ok, out[i] == want)
+		}
+		zv.Assert(ok, "ToBytes on a grown array")
+	}
+	// Xor with an array of the same size from the other constructor
+	o := verifArray(n)
+	om := verifArrAbs(o)
+	zv.Assert(b.Xor(o) == nil, "Xor of equal sizes refused")
+	x := make([]bool, n)
+	for i := range x {
+		x[i] = m[i] != om[i]
+	}
+	zv.Assert(verifArrSame(b, x), "Xor on a grown array")
+	// Reverse
+	if n > 0 {
+		b.Reverse()
+		r := make([]bool, n)
+		for i := range r {
+			r[i] = x[n-1-i]
+		}
+		zv.Assert(verifArrSame(b, r), "Reverse on a grown array disagrees with the model")
+		zv.Assert(verifArrInv(b), "invariant after Reverse on a grown array")
+		// and appending afterwards still lands at the end
+		b.AppendBit(true)
+		r = append(r, true)
+		zv.Assert(verifArrSame(b, r), "AppendBit after Reverse on a grown array")
+	}
+	zv.Reach("grown")
+}
